@@ -374,6 +374,14 @@ def call_over_time(table, fd, vars_, ests, kw, note, tag):
               if '/aurel/' in f.filename]
         where = [f"{f.filename.split('/')[-1]}:{f.lineno}" for f in tb][-2:]
         fn = tb[-1].name if tb else "?"
+        if isinstance(e, ValueError) and "inhomogeneous" in str(e) \
+                and "dtconserved" in _names(vars_):
+            # recorded finding: the one catalogue key whose value is a ragged
+            # tuple (dtD, dtE, dtSdown3) cannot be stored by over_time
+            note.fail("raises:dtconserved-ragged-tuple",
+                      dict(call=tag, error=str(e)[:200], where=where,
+                           vars=_names(vars_)))
+            return None
         note.fail(f"raises:{type(e).__name__}@{fn}",
                   dict(call=tag, error=str(e)[:200], where=where,
                        vars=_names(vars_)))
